@@ -10,6 +10,11 @@ N1  ``for v in (e1, e2, ...): body`` over a literal tuple / list display (at mos
 N2  ``a, b = (f(x) for x in (p, q))`` (generator or list comprehension over a literal display of the same length as
     the target tuple, one ``for`` clause, no ``if`` clause) becomes ``a = f(p); b = f(q)``.
 
+N3  ``match subject:`` whose subject is a plain name / attribute / subscript (evaluated once, no call) and whose cases
+    are literal values, ``True`` / ``False`` / ``None``, bare class patterns ``C()``, alternatives of those, and a final
+    wildcard - without guards or captures - becomes the equivalent ``if subject == v: ... elif isinstance(subject, C):
+    ... else: ...`` chain, so that every rule sees one form of multi-way branch.
+
 The copies keep the source positions of the statements they were copied from, so reports still point at the loop.
 """
 
@@ -122,6 +127,7 @@ class Normaliser(ast.NodeTransformer):
     def __init__(self):
         self.unrolled = 0
         self.split = 0
+        self.matches = 0
 
     # -- N1 -----------------------------------------------------------------
     def visit_For(self, node: ast.For):
@@ -156,6 +162,15 @@ class Normaliser(ast.NodeTransformer):
             out += [copy.deepcopy(st) for st in body]
         self.unrolled += 1
         return out
+
+    # -- N3 -----------------------------------------------------------------
+    def visit_Match(self, node: ast.Match):
+        self.generic_visit(node)
+        r = _match_to_if(node)
+        if r is None:
+            return node
+        self.matches += 1
+        return r
 
     # -- N2 -----------------------------------------------------------------
     def visit_Assign(self, node: ast.Assign):
@@ -198,8 +213,56 @@ class Normaliser(ast.NodeTransformer):
         return out
 
 
+def _pattern_test(subj: ast.expr, p: ast.pattern):
+    """expression equivalent to `subject matches p`; None for the wildcard; False when not expressible"""
+    s = copy.deepcopy(subj)
+    if isinstance(p, ast.MatchValue):
+        t = ast.Compare(left=s, ops=[ast.Eq()], comparators=[copy.deepcopy(p.value)])
+    elif isinstance(p, ast.MatchSingleton):
+        t = ast.Compare(left=s, ops=[ast.Is()], comparators=[ast.Constant(p.value)])
+    elif isinstance(p, ast.MatchAs) and p.pattern is None and p.name is None:
+        return None
+    elif isinstance(p, ast.MatchClass) and not p.patterns and not p.kwd_patterns:
+        t = ast.Call(func=ast.Name(id="isinstance", ctx=ast.Load()), args=[s, copy.deepcopy(p.cls)], keywords=[])
+    elif isinstance(p, ast.MatchOr):
+        parts = [_pattern_test(subj, q) for q in p.patterns]
+        if any(x is False or x is None for x in parts):
+            return False
+        t = ast.BoolOp(op=ast.Or(), values=parts)
+    else:
+        return False
+    for n in ast.walk(t):
+        ast.copy_location(n, p)
+    return t
+
+
+def _match_to_if(node: ast.Match):
+    subj = node.subject
+    if any(isinstance(x, (ast.Call, ast.NamedExpr, ast.Await, ast.Yield, ast.YieldFrom)) for x in ast.walk(subj)):
+        return None
+    tests = []
+    for i, case in enumerate(node.cases):
+        if case.guard is not None:
+            return None
+        t = _pattern_test(subj, case.pattern)
+        if t is False:
+            return None
+        if t is None and i != len(node.cases) - 1:
+            return None
+        tests.append(t)
+    chain: list[ast.stmt] = []
+    for t, case in reversed(list(zip(tests, node.cases))):
+        if t is None:
+            chain = list(case.body)
+        else:
+            new_if = ast.If(test=t, body=list(case.body), orelse=chain)
+            ast.copy_location(new_if, case.pattern)
+            chain = [new_if]
+    return chain or None
+
+
 def normalise(tree: ast.Module) -> tuple[ast.Module, dict]:
     nz = Normaliser()
     tree = nz.visit(tree)
     ast.fix_missing_locations(tree)
-    return tree, {"loops_unrolled": nz.unrolled, "tuple_comprehensions_split": nz.split}
+    return tree, {"loops_unrolled": nz.unrolled, "tuple_comprehensions_split": nz.split, "match_statements_rewritten": nz.matches}
